@@ -27,20 +27,20 @@ def cmd_records(script):
         rec = {"name": cmd.name, "terms": [], "formals": [], "text": ""}
         name = cmd.name
         if name in ("assert", "assert-soft", "maximize", "minimize"):
-            rec["terms"] = [term_io.export(cmd.args[0])]
+            rec["terms"] = [term_io.export_result(cmd.args[0])]
             if name == "assert-soft":
                 rec["text"] = str(sorted((k, str(v)) for k, v in cmd.args[1]))
             elif name in ("maximize", "minimize"):
                 rec["text"] = str(sorted((k, str(v)) for k, v in (cmd.args[1] or [])))
         elif name in ("minmax", "maxmin"):
-            rec["terms"] = [term_io.export(t) for t in cmd.args[0]]
+            rec["terms"] = [term_io.export_result(t) for t in cmd.args[0]]
             rec["text"] = str(sorted((k, str(v)) for k, v in (cmd.args[1] or [])))
         elif name in ("check-sat-assuming", "get-value"):
-            rec["terms"] = [term_io.export(t) for t in cmd.args]
+            rec["terms"] = [term_io.export_result(t) for t in cmd.args]
         elif name in ("declare-fun", "declare-const"):
-            rec["terms"] = [term_io.export(cmd.args[0])]
+            rec["terms"] = [term_io.export_result(cmd.args[0])]
         elif name == "define-fun":
-            rec["terms"] = [term_io.export(cmd.args[3])]
+            rec["terms"] = [term_io.export_result(cmd.args[3])]
             rec["formals"] = [v.symbol_name() for v in cmd.args[1]]
             rec["text"] = "%s %s %s" % (cmd.args[0], [str(v.symbol_type()) for v in cmd.args[1]], cmd.args[2])
         else:
